@@ -223,6 +223,34 @@ func c17Run(c c17Case) rt.CaseResult {
 	}
 	switch {
 	case !converges && everr == nil:
+		// a hash-keyed store refuses a new fact whose Atom.Hash() equals that of a different stored fact (C06's finding
+		// F8); the fixpoint then "closes" early. Attributed only when one more step of the reference from the final facts
+		// derives a fact with the hash of a structurally different final fact.
+		if c.store == "simple" {
+			final := mg.Atoms(store)
+			byHash := map[uint64]ast.Atom{}
+			for _, a := range final {
+				byHash[a.Hash()] = a
+			}
+			// one round of the reference's immediate-consequence step per stratum from the final facts
+			var nextAtoms []ast.Atom
+			if !c.diverges {
+				if one, _ := oracle.Eval(pp.clauses, final, oracle.Config{MaxRounds: 1, MaxFacts: 100000}); one != nil {
+					nextAtoms = one.DB.Atoms()
+				}
+			}
+			var pairs []string
+			for _, a := range nextAtoms {
+				if b, ok := byHash[a.Hash()]; ok && !b.Equals(a) && b.Predicate == a.Predicate {
+					pairs = append(pairs, a.String()+" ~ "+b.String())
+				}
+			}
+			if len(pairs) > 0 {
+				w["colliding"] = pairs
+				res.Violations = append(res.Violations, rt.Violation{Kind: "missing-facts-hash-collision", Detail: fmt.Sprintf("[%s seed=%v limit=%d store=%s] the hash-keyed store refused a new fact with the hash of a different stored fact and evaluation closed early: %v", c.name, c.seed, c.limit, c.store, pairs), Witness: w})
+				break
+			}
+		}
 		viol("divergence-without-error", fmt.Sprintf("the program has an infinite model but evaluation returned nil after creating %d facts", created))
 	case converges && everr == nil:
 		want := aggCanon(ref.DB.Atoms())
